@@ -89,11 +89,17 @@ func main() {
 
 func filterCase(r *hlib.Rng, s *hlib.Suite) {
 	promo := r.Chance(1, 15)
+	enumLike := !promo && r.Chance(1, 15)
 	var need []string
 	if promo {
 		need = []string{"int", "float"}
 	}
+	if enumLike {
+		need = []string{"enum", "string"}
+		forceCaseCluster = true
+	}
 	qf, cols := genFrame(r, need)
+	forceCaseCluster = false
 	qf, cols, hist := deriveCols(r, qf, cols, s)
 	malformed := r.Chance(1, 4)
 	cl := genClause(r, cols, 3, malformed)
@@ -101,6 +107,12 @@ func filterCase(r *hlib.Rng, s *hlib.Suite) {
 		if pc := genPromotionClause(r, cols); pc != nil {
 			cl, malformed = pc, false
 			s.Count("filter-int-float-promotion")
+		}
+	}
+	if enumLike {
+		if pc := genEnumLikeClause(r, cols); pc != nil {
+			cl, malformed = pc, false
+			s.Count("filter-like-case-variants")
 		}
 	}
 	in := qframe.VerifDump(qf)
